@@ -2,64 +2,51 @@
 """Re-run every seeded change stored under seeded/<ID>/ against every registered check and rewrite seeded/MATRIX.md
 (and the `checks` / `reported` / `own_property_check` fields of each meta.json).  Scratch copies live under the system
 temp directory and are removed as soon as a change has been evaluated; /repo itself is never patched."""
-import concurrent.futures as cf
 import json
 import os
-import shutil
-import subprocess
 import sys
-import tempfile
+
+sys.path.insert(0, os.path.dirname(os.path.abspath(__file__)))
+from sa.matrix import registered_checks, run_matrix  # noqa: E402
 
 VERIF = os.path.dirname(os.path.abspath(__file__))
-CHECKS = [c["property_id"] for c in json.load(open(os.path.join(VERIF, "MANIFEST.json")))["checks"]]
-
-
-def runcheck(args):
-    tmp, c = args
-    r = subprocess.run([os.path.join(VERIF, "check"), c, "--repo", tmp], capture_output=True, text=True)
-    viol = [l.strip()[:230] for l in (r.stdout + r.stderr).splitlines() if (l.startswith("  ") and "]" in l and "[" in l and not l.startswith("  rule ")) or "ANALYSIS-ERROR" in l]
-    return c, r.returncode, viol
 
 
 def main():
     root = os.path.join(VERIF, "seeded")
+    checks = registered_checks()
     ids = sys.argv[1:] or sorted(d for d in os.listdir(root) if os.path.exists(os.path.join(root, d, "meta.json")))
-    rows = []
-    for sid in ids:
+    rows = {}
+
+    def done(sid, res):
+        if res is None:
+            print(sid, "patch does not apply")
+            return
         mp = os.path.join(root, sid, "meta.json")
         meta = json.load(open(mp))
-        tmp = tempfile.mkdtemp(prefix=f"verif-seed-{sid}-")
-        try:
-            shutil.copytree("/repo/trimesh", tmp + "/trimesh", ignore=shutil.ignore_patterns("__pycache__", "*.pyc"))
-            r = subprocess.run(["patch", "-p1", "-s", "-f", "-d", tmp, "-i", os.path.join(root, sid, "patch.diff")], capture_output=True, text=True)
-            if r.returncode != 0:
-                print(sid, "patch does not apply")
-                continue
-            with cf.ThreadPoolExecutor(16) as ex:
-                out = list(ex.map(runcheck, [(tmp, c) for c in CHECKS]))
-        finally:
-            shutil.rmtree(tmp, ignore_errors=True)
-        hits = {c: viol for c, rc, viol in out if rc == 1}
-        errs = {c: viol for c, rc, viol in out if rc not in (0, 1)}
+        hits = {c: v for c, (rc, v) in res.items() if rc == 1}
+        errs = {c: v for c, (rc, v) in res.items() if rc not in (0, 1)}
         own = meta["property"]
-        meta["checks"] = {**{c: "caught" for c in hits}, **({own: "missed"} if own not in hits and own in CHECKS else {})}
-        meta["reported"] = {c: v[:3] for c, v in hits.items()}
-        meta["own_property_check"] = "caught" if own in hits else ("not registered" if own not in CHECKS else "missed")
+        meta["checks"] = {**{c: "caught" for c in sorted(hits)}, **({own: "missed"} if own not in hits and own in checks else {})}
+        meta["reported"] = {c: v[:3] for c, v in sorted(hits.items())}
+        meta["own_property_check"] = "caught" if own in hits else ("not registered" if own not in checks else "missed")
         if errs:
             meta["analysis_errors"] = {c: v[:1] for c, v in errs.items()}
         else:
             meta.pop("analysis_errors", None)
         json.dump(meta, open(mp, "w"), indent=1)
-        rows.append((sid, meta.get("round", "?"), meta.get("title", "")[:88], ", ".join(sorted(hits)) or "-", meta["own_property_check"]))
-        print(sid, "reported by", sorted(hits) or "NOTHING", ("errors: " + str(sorted(errs))) if errs else "")
+        rows[sid] = (sid, meta.get("round", "?"), meta.get("title", "")[:88], ", ".join(sorted(hits)) or "-", meta["own_property_check"])
+        print(sid, "reported by", sorted(hits) or "NOTHING", ("errors: " + str(sorted(errs))) if errs else "", flush=True)
+
+    run_matrix({sid: os.path.join(root, sid, "patch.diff") for sid in ids}, checks, progress=done)
     if not sys.argv[1:]:
         with open(os.path.join(root, "MATRIX.md"), "w") as f:
             f.write("| change | round | what it does | reported by | own check |\n|---|---|---|---|---|\n")
-            for r in rows:
-                f.write("| " + " | ".join(str(x) for x in r) + " |\n")
-        n_any = sum(1 for r in rows if r[3] != "-")
-        n_own = sum(1 for r in rows if r[4] == "caught")
-        print(f"{len(rows)} seeded changes: {n_any} reported by some check, {n_own} by the check of their own property")
+            for sid in sorted(rows):
+                f.write("| " + " | ".join(str(x) for x in rows[sid]) + " |\n")
+    n_any = sum(1 for r in rows.values() if r[3] != "-")
+    n_own = sum(1 for r in rows.values() if r[4] == "caught")
+    print(f"{len(rows)} seeded changes: {n_any} reported by some check, {n_own} by the check of their own property")
 
 
 if __name__ == "__main__":
